@@ -135,6 +135,8 @@ def gen_program(rng, profile):
     if base == 'c14':
         nkeys = rng.choice([2, 3])
     cache = _w(rng, [('default', 3), ('dict', 3), ('map', 4)])
+    if base in ('c05', 'c06') and rng.random() < 0.2:
+        cache = _w(rng, [('evict', 2), ('picky', 1)])        # caller-supplied mappings that lose entries / refuse values
     if base == 'c14':
         cache = _w(rng, [('evict', 5), ('lru', 3), ('map', 1), ('dict', 1)])
     durs = [(None, 3), (0, 3), (Q, 4), (1.0, 3), (70.0, 1)]
@@ -181,6 +183,10 @@ def gen_program(rng, profile):
         for _ in range(_w(rng, [(1, 4), (2, 4), (3, 2)])):
             faults.append({'kind': 'evict', 'on': 'exit', 'inv': _w(rng, [(0, 5), (1, 3), (2, 2)]),
                            'delta': rng.randrange(1, 60), 'key': rng.randrange(nkeys)})
+    elif faulty and cache in ('evict', 'picky'):
+        for _ in range(_w(rng, [(1, 4), (2, 4), (3, 2)])):
+            faults.append({'kind': 'evict', 'on': _w(rng, [('exit', 3), ('enter', 2)]), 'inv': _w(rng, [(0, 5), (1, 3), (2, 2)]),
+                           'delta': rng.randrange(1, 120), 'key': rng.randrange(nkeys)})
     elif faulty and rng.random() < 0.5:
         for _ in range(_w(rng, [(1, 6), (2, 3), (3, 1)])):
             kind = 'stop'
@@ -227,7 +233,7 @@ class CacheWorld:
         self.pending_faults = list(prog.get('faults', ()))
         self.end = None
         self.first_success = {}
-        self.retaining = prog['cache'] in ('default', 'dict', 'map')
+        self.retaining = prog['cache'] in ('default', 'dict', 'map')      # evict / picky / lru lose or refuse entries
         self.cache = None
         self.cached = None
         self.harness_errors = []
@@ -258,6 +264,8 @@ class CacheWorld:
             return tracedmap.RetainingMap()
         if kind == 'evict':
             return tracedmap.EvictingMap()
+        if kind == 'picky':
+            return tracedmap.PickyMap()
         if kind == 'lru':
             from lru import LRU
             return LRU(self.prog.get('lru_size', 2))
@@ -441,6 +449,8 @@ class CacheWorld:
             C.outcome = ('value', v)
         except (HarnessError, HarnessBaseError) as e:
             C.outcome = ('herr', e.inv)
+        except tracedmap.MappingRefusal:
+            C.outcome = ('mapping_refusal',)
         except asyncio.TimeoutError:
             C.outcome = ('timeout',)
         except asyncio.CancelledError:
@@ -723,6 +733,11 @@ class CacheWorld:
                 continue                         # abandoned with its loop: not judged
             kind = o[0]
             if kind == 'value':
+                continue
+            if kind == 'mapping_refusal':
+                if not any(J.task is C.task and J.how == 'return' for J in self.invs):
+                    self.viol('C06', 'cache.foreign_failure', "caller received the supplied mapping's refusal of a value it did not compute",
+                              f'caller {C.ti}.{C.ci} key {C.key}')
                 continue
             if kind == 'herr':
                 J = self.invs[o[1]]
